@@ -202,6 +202,52 @@ def worker(job):
                         part.violation('long-stdin-line-differs-from-argv-result', dict(kind='long-stdin-line', length=L, newline=bool(tail), want_stdout=wantl, run=r.brief()))
                     else:
                         part.nontrivial.add(nt_hash('long', L, tail))
+            if i % 9 == 4:
+                # longer lines on stdin: a script may be up to 10,000 bytes, whatever way it is handed over
+                kind_l = rng.choice(['hex', 'asm'])
+                if kind_l == 'hex':
+                    nb = rng.choice([511, 512, 513, 600, 2000, 5000])
+                    sc_l = bytes([OP_1]) * (nb - 1) + bytes([OP_7]) if nb <= 1000 else (bytes([OP_1, OP_DROP]) * ((nb - 1) // 2) + bytes([OP_7]))[:10000]
+                    text = '0x' + sc_l.hex()
+                else:
+                    nn = rng.choice([79, 100, 150, 300, 800])
+                    sc_l = bytes([OP_1, OP_DROP]) * nn + bytes([OP_7])
+                    text = '[' + 'OP_1 OP_DROP ' * nn + 'OP_7]'
+                wl = ref_run(sc_l, [], STANDARD, BASE)
+                for tail in (b'\n', b''):
+                    r = proc.run([btcdeb], wd, stdin=text.encode() + tail, mode='pipe', timeout=60)
+                    part.evaluations += 1
+                    part.count('modes', 'pipe/line-of-%d-characters' % len(text))
+                    wl_w = dict(kind='long-stdin-line', length=len(text), head=text[:60], reference=wl[0], run=r.brief())
+                    if r.abnormal:
+                        part.violation('abnormal-exit:' + r.crash_key('btcdeb'), wl_w)
+                    elif wl[0] == 'ok' and (r.rc != 0 or r.stdout.decode('latin1') != expected_stdout(wl[1])):
+                        part.violation('long-stdin-line-differs-from-argv-result', wl_w)
+                    elif wl[0] != 'ok' and r.rc != 1:
+                        part.violation('long-stdin-line-differs-from-argv-result', wl_w)
+                    else:
+                        part.nontrivial.add(nt_hash('long', text, tail))
+            if i % 11 == 5:
+                # inline functions inside the script: whatever they print while being evaluated, stdout is the final stack only
+                h160 = bytes(rng.randrange(256) for _ in range(20))
+                from ref import codec
+                addr = codec.segwit_addr_encode(rng.choice(['bc', 'tb', 'bcrt']), 0, h160)
+                b58 = codec.b58check_encode(b'\x00' + h160)
+                text, wst = rng.choice([('[bech32dec(%s) OP_SIZE]' % addr, [h160, bytes([20])]),
+                                        ('[base58chkdec(%s) OP_SIZE]' % b58, [b'\x00' + h160, bytes([21])]),
+                                        ('[sha256(0x%s) OP_SIZE]' % h160.hex(), [sha256(h160), bytes([32])]),
+                                        ('[addr_to_spk(%s) OP_SIZE]' % b58, [bytes([OP_DUP, OP_HASH160, 20]) + h160 + bytes([OP_EQUALVERIFY, OP_CHECKSIG]), bytes([25])])])
+                mode_f = rng.choice(['pipe', 'ptyin'])
+                r = proc.run([btcdeb] + ([text] if mode_f == 'ptyin' else []), wd, stdin=(text + '\n').encode() if mode_f == 'pipe' else b'', mode=mode_f, timeout=30)
+                part.evaluations += 1
+                part.count('modes', mode_f + '/inline-function-in-script')
+                wf = dict(kind='inline-function-in-script', script=text, mode=mode_f, want_stdout=expected_stdout(wst), run=r.brief())
+                if r.abnormal:
+                    part.violation('abnormal-exit:' + r.crash_key('btcdeb'), wf)
+                elif r.rc != 0 or r.stdout.decode('latin1') != expected_stdout(wst):
+                    part.violation('stdout-is-not-the-final-stack', wf)
+                else:
+                    part.nontrivial.add(nt_hash('inl', text, mode_f))
             if i % 7 == 0 and want[0] == 'ok' and not c['tx'] and script and len(script) < 300:
                 # interactive stepping must reach the same final stack
                 nsteps = len(decode_all(script)) + 2
